@@ -369,6 +369,19 @@ func c02Enumerate(tier string, emit func(core.Case)) {
 			}
 		}
 	}
+	// (ii-b) attribute count sweep: 0..12 attributes on one element (attribute slices of every
+	// capacity the parser produces), values rotating through the value list
+	for _, h := range []string{`<div%s>x</div>`, `<input%s>`, `<ul><li%s>x</li><li>y</li></ul>`} {
+		for k := 0; k <= 12; k++ {
+			for rot := 0; rot < 3; rot++ {
+				attrs := ""
+				for j := 0; j < k; j++ {
+					attrs += fmt.Sprintf(` data-a%d="%s"`, j, c02AttrVals[(j*5+rot*7)%len(c02AttrVals)])
+				}
+				emit(&c02Case{Part: "attr", Src: fmt.Sprintf(h, attrs)})
+			}
+		}
+	}
 	// (iii) text sweep
 	var all []string
 	for _, g := range [][]string{c02Block, c02Inline, c02Table, c02Raw} {
@@ -467,6 +480,16 @@ func c02Enumerate(tier string, emit func(core.Case)) {
 				emit(&c02Case{Part: "interp-attr", Val: vn, L: l, R: r, Src: fmt.Sprintf(`<div><p id="s" title="%s{{ v }}%s">k</p></div>`, l, r)})
 				emit(&c02Case{Part: "interp-text", Val: vn, L: l, R: r, Src: fmt.Sprintf(`<ul><li v-for="i in one" id="s">%s{{ v }}%s</li></ul>`, l, r)})
 			}
+		}
+		for _, k := range []int{2, 3, 4, 5, 6, 7, 8} {
+			// the sink among k static attributes (evaluated values are appended to attribute slices of every capacity)
+			extra := ""
+			for j := 0; j < k; j++ {
+				extra += fmt.Sprintf(` data-a%d="%d"`, j, j)
+			}
+			emit(&c02Case{Part: "interp-attr", Val: vn, Src: `<div><p id="s"` + extra + ` title="{{ v }}">k</p></div>`})
+			emit(&c02Case{Part: "bound", Val: vn, Src: `<div><p id="s"` + extra + ` :title="v">k</p></div>`})
+			emit(&c02Case{Part: "vhtml", Val: vn, Src: `<div id="s"` + extra + ` v-html="v"></div>`})
 		}
 		emit(&c02Case{Part: "bound", Val: vn, Src: `<div><p id="s" :title="v">k</p></div>`})
 		emit(&c02Case{Part: "bound", Val: vn, Src: `<div><p id="s" v-bind:title="v" class="c">k</p></div>`})
